@@ -24,6 +24,7 @@ COPY_IF_KW = {"np.array": True, "np.ma.array": False, "np.ma.masked_array": Fals
 INPLACE_METHODS = {"sort", "fill", "resize", "put", "itemset", "partition", "setfield", "byteswap"}
 INPLACE_FUNCS = {"np.put", "np.copyto", "np.fill_diagonal", "np.place", "np.putmask", "np.put_along_axis", "np.random.shuffle"}
 CONTAINER_MUTATORS = {"append", "extend", "insert", "pop", "remove", "clear", "update", "setdefault", "popitem", "reverse"}
+SIZE_MUTATORS = {"append", "extend", "insert", "pop", "remove", "clear", "popitem", "add", "discard"}
 INDEX_ARRAY_FUNCS = {
     "np.isnan", "np.isfinite", "np.isclose", "np.logical_and", "np.logical_or", "np.logical_not", "np.invert", "np.arange",
     "np.where", "np.nonzero", "np.argsort", "np.all", "np.any", "np.isinf", "np.argwhere", "np.flatnonzero",
@@ -76,6 +77,8 @@ class Summary:
         self.cmut = {}  # label -> description: python container (dict/list) held under that label is mutated in place
         self.req = {}  # (param, terminal) -> {own param: bool} needed for the mutation to happen
         self.mut_labels = {}  # non-param origins mutated ('STORED', 'F:attr') -> {terminal: chain}
+        self.szmut = {}  # label ('P:x', 'F:attr') of a python container whose SIZE is changed (del c[i], .remove, .append ...) -> where
+        self.iterhaz = {}  # (iterated label, resized label) -> where: a loop iterates the first while its body resizes the second
 
     def sig(self):
         return (
@@ -84,6 +87,8 @@ class Summary:
             tuple(sorted((k, tuple(sorted(v))) for k, v in self.store.items())),
             tuple(sorted((k, tuple(sorted(v))) for k, v in self.mut_labels.items())),
             tuple(sorted(self.cmut)),
+            tuple(sorted(self.szmut)),
+            tuple(sorted(self.iterhaz)),
         )
 
 
@@ -102,6 +107,8 @@ class Analyzer:
             self.funcs["%s::%s" % (m.relpath, q)] = (m, f, ci, kind)
         self.summ = {fq: Summary() for fq in self.funcs}
         self.sinks = {}  # (fq, id(stmt), label) -> Sink  (terminal in-place writes)
+        self.iter_hazards = {}  # (fq, stmt text) -> detail: a container is resized while a loop iterates it
+        self.list_fields = self._list_fields(prog)
         self.notes = []
         self.undecided = []
         self.by_method = {}
@@ -117,6 +124,7 @@ class Analyzer:
             self.rounds = r + 1
             before = {fq: s.sig() for fq, s in self.summ.items()}
             self.sinks = {}
+            self.iter_hazards = {}
             self.notes = []
             self.undecided = []
             for fq in self.funcs:
@@ -124,6 +132,22 @@ class Analyzer:
             if all(self.summ[fq].sig() == before[fq] for fq in self.funcs):
                 return
         raise AnalysisError("alias summaries did not reach a fixpoint in %d rounds" % max_rounds)
+
+    @staticmethod
+    def _list_fields(prog):
+        """Attributes every store of which (anywhere in the package) is a list display / comprehension / list(...) call."""
+        kinds = {}
+        for m in prog.by_rel.values():
+            for n in ast.walk(m.tree):
+                if isinstance(n, ast.Assign):
+                    for t in n.targets:
+                        if isinstance(t, ast.Attribute):
+                            v = n.value
+                            is_list = isinstance(v, (ast.List, ast.ListComp)) or (isinstance(v, ast.Call) and isinstance(v.func, ast.Name) and v.func.id == "list")
+                            kinds.setdefault(t.attr, []).append(is_list)
+                elif isinstance(n, (ast.AugAssign, ast.AnnAssign)) and isinstance(n.target, ast.Attribute):
+                    kinds.setdefault(n.target.attr, []).append(False)
+        return {a for a, ks in kinds.items() if ks and all(ks)}
 
     # ------------------------------------------------------------------ callee resolution
     def resolve_call(self, fa, call):
@@ -205,6 +229,7 @@ class FnAnalysis:
         self.summ = an.summ[fq]
         self.local_fn_alias = {}
         self.flagsplit = {}
+        self.loops = []  # labels of the containers the enclosing for-loops iterate (live, i.e. not through a copy)
         self.cur_stmt = None
         self.assigned = {t.id for n in ast.walk(self.fn) for t in ast.walk(n) if isinstance(t, ast.Name) and isinstance(t.ctx, (ast.Store, ast.Del))}
         pos, kwonly, va, kw = _params(self.fn)
@@ -316,11 +341,13 @@ class FnAnalysis:
             it = self.ev(st.iter, env)
             item = self.iter_item(st.iter, it, env)
             cur = dict(env)
+            self.loops.append(self.live_iter(st.iter, env))
             for _ in range(2):
                 body_env = dict(cur)
                 self.assign(st.target, item, body_env, st, None)
                 out = self.block(st.body, body_env)
                 cur = self.join_env(cur, out)
+            self.loops.pop()
             if st.orelse:
                 cur = self.join_env(cur, self.block(st.orelse, dict(cur)))
             return cur
@@ -354,6 +381,19 @@ class FnAnalysis:
             for t in st.targets:
                 if isinstance(t, ast.Name):
                     env.pop(t.id, None)
+                elif isinstance(t, ast.Subscript):
+                    if isinstance(t.value, ast.Name) and t.value.id == self.selfname and self.ci is not None and self.ci.find("__delitem__")[1] is not None:
+                        # del self[key]  ==  self.__delitem__(key)
+                        kv = self.ev(t.slice, env)
+                        for fq in self.an.cha(self.ci, "__delitem__"):
+                            fn = self.an.funcs[fq][1]
+                            names = _params(fn)[0][1:]
+                            if names:
+                                self.apply_summary(fq, {names[0]: (kv, t.slice)}, st, env, "call")
+                    else:
+                        base = self.ev(t.value, env)
+                        if not base.arr:
+                            self.size_mut(base.o, st)
             return env
         if isinstance(st, (ast.Pass, ast.Import, ast.ImportFrom, ast.Global, ast.Nonlocal, ast.Assert, ast.Break, ast.Continue, ast.FunctionDef, ast.ClassDef)):
             if isinstance(st, ast.FunctionDef):
@@ -521,6 +561,44 @@ class FnAnalysis:
         if not base.o and isinstance(t.value, ast.Name) and value is not None and not aug and not base.arr:
             env[t.value.id] = AV(base.o, base.e | value.o | value.e, base.arr)
 
+    def live_iter(self, e, env):
+        """Labels of the container objects a `for` over expression e walks live (copies made by list()/sorted()/slicing of lists cut the link)."""
+        if isinstance(e, ast.Call):
+            fn = ast.unparse(e.func)
+            if fn in ("list", "tuple", "sorted", "set", "frozenset", "dict", "range", "len", "np.array", "copy", "dcp", "deepcopy"):
+                return frozenset()
+            if fn in ("enumerate", "zip", "reversed", "iter"):
+                out = frozenset()
+                for a in e.args:
+                    out |= self.live_iter(a, env)
+                return out
+            if isinstance(e.func, ast.Attribute) and e.func.attr in ("items", "keys", "values"):
+                return self.live_iter(e.func.value, env)
+            if isinstance(e.func, ast.Attribute) and e.func.attr == "copy":
+                return frozenset()
+            return frozenset()
+        v = self.ev(e, env)
+        if v.arr:
+            return frozenset()
+        return frozenset(l for l in v.o if l.startswith(("P:", "F:", "G:")))
+
+    def size_mut(self, labels, st):
+        """The container(s) under `labels` change size at st: hazard when an enclosing loop iterates the same object."""
+        labels = frozenset(l for l in labels if l.startswith(("P:", "F:", "G:")))
+        if not labels:
+            return
+        where = "%s: `%s`" % (self.fq, " ".join(ast.unparse(st).split())[:90])
+        for lab in labels:
+            self.summ.szmut.setdefault(lab, where)
+        for L in self.loops:
+            both = L & labels
+            if both:
+                self.an.iter_hazards.setdefault((self.fq, " ".join(ast.unparse(st).split())[:90]), "the loop iterates %s, which this statement resizes" % sorted(both))
+            for a in L:
+                for b in labels:
+                    if a != b and (a.startswith("P:") or b.startswith("P:")):
+                        self.summ.iterhaz.setdefault((a, b), where)
+
     def param_aug(self, cur, st):
         # `x op= v` on a raw (never converted) parameter is in place only if the caller passed an ndarray:
         # a violation for parameters in an array role, a note otherwise (flags, counters).
@@ -605,6 +683,8 @@ class FnAnalysis:
                 return AV(o=["STORED"], e=["STORED"])
             if base.dictlike:
                 return FRESH
+            if isinstance(e.slice, ast.Slice) and base.o and not base.arr and all(l.startswith("F:") and l[2:] in self.an.list_fields for l in base.o):
+                return AV(e=base.e)  # slice of a python list: a new list
             if base.e and not base.arr:
                 if isinstance(e.slice, ast.Slice):
                     return AV(o=(), e=base.e)
@@ -743,6 +823,8 @@ class FnAnalysis:
             m = e.func.attr
             if m in INPLACE_METHODS and recv.o:
                 self.sink(recv.o, e, ".%s() works in place" % m)
+            if m in SIZE_MUTATORS and recv.o and not recv.arr:
+                self.size_mut(recv.o, e)
             if m in CONTAINER_MUTATORS and recv.o and not recv.arr:
                 self.note("container parameter mutated by .%s(): %s" % (m, ast.unparse(e)[:80]))
                 for lab in recv.o:
@@ -825,6 +907,33 @@ class FnAnalysis:
                             self.summ.req[(lab[2:], term)] = my_req
                         else:
                             self.summ.mut_labels.setdefault(lab, {}).setdefault(term, ch)
+        if s.szmut or s.iterhaz:
+            on_self = how in ("setter",) or isinstance(node, ast.Delete) or (isinstance(node, ast.Call) and isinstance(node.func, ast.Attribute)
+                                                                           and isinstance(node.func.value, ast.Name) and node.func.value.id == self.selfname)
+
+            def mapped(lab):
+                if lab.startswith("P:"):
+                    if lab[2:] in bound:
+                        v, _ = bound[lab[2:]]
+                        return frozenset() if v.arr else frozenset(l for l in v.o if l.startswith(("P:", "F:", "G:")))
+                    return frozenset()
+                if lab.startswith("F:"):
+                    return frozenset([lab]) if on_self else frozenset()
+                return frozenset([lab])
+
+            for lab in s.szmut:
+                m_ = mapped(lab)
+                if m_:
+                    self.size_mut(m_, node)
+            for (a, b), where in s.iterhaz.items():
+                ma, mb = mapped(a), mapped(b)
+                if ma & mb:
+                    self.an.iter_hazards.setdefault((self.fq, " ".join(ast.unparse(node).split())[:90]),
+                                                    "passes %s as both the iterated and the resized container of %s" % (sorted(ma & mb), where))
+                for x in ma:
+                    for y in mb:
+                        if x != y and (x.startswith("P:") or y.startswith("P:")):
+                            self.summ.iterhaz.setdefault((x, y), where)
         out_o = set()
         for r in s.ret:
             if r.startswith("P:"):
